@@ -154,3 +154,49 @@ func VP_C17_Semantics() {
 	zzvp.Assert(staged, "with no .goitignore, add . skips no path outside the metadata directory")
 	zzvp.Done()
 }
+
+// VP_C17_Forms: files of the metadata directory named in roundabout ways (absolute path, detour through the parent
+// directory, "./" prefix, the directory itself with a trailing slash) are never staged, from a repository with history.
+func VP_C17_Forms() {
+	vpInitRepo()
+	w := zzvp.Root()
+	name := vpComp("fn", zzvp.Param("complen", 2))
+	zzvp.WriteFile(w+"/"+name, []byte("1"))
+	vpOK(zzvp.Run("add", name))
+	vpOK(zzvp.Run("commit", "-m", "c"))
+	base := w
+	for i := len(w) - 1; i >= 0; i-- {
+		if w[i] == '/' {
+			base = w[i+1:]
+			break
+		}
+	}
+	inner := []string{"HEAD", "config", "index", "refs/heads/main", "logs/HEAD"}[zzvp.Choose(5)]
+	var r zzvp.Result
+	switch zzvp.Choose(5) {
+	case 0:
+		r = zzvp.Run("add", w+"/.goit/"+inner)
+	case 1:
+		r = zzvp.Run("add", "../"+base+"/.goit/"+inner)
+	case 2:
+		r = zzvp.Run("add", "./.goit/"+inner)
+	case 3:
+		r = zzvp.Run("add", ".goit/", name)
+	default:
+		r = zzvp.Run("add", name+"/../.goit/"+inner)
+	}
+	zzvp.Assert(r.Exit == 0 || r.Exit == 1, "add ends with status 0 or 1")
+	idx, ok := vpReadIndex()
+	clean := ok
+	for _, e := range idx {
+		if len(e.path) >= 5 && e.path[:5] == ".goit" {
+			clean = false
+		}
+	}
+	zzvp.Assert(clean, "no path inside .goit and no path excluded by .goitignore is ever staged")
+	st := vpParseStatus(zzvp.Run("status").Out)
+	for _, u := range append(append([]string{}, st.untracked...), st.staged...) {
+		zzvp.Assert(!vpContains(u, ".goit/"), "status never lists Goit's own files")
+	}
+	zzvp.Done()
+}
